@@ -967,7 +967,7 @@ static bool remove_at(qvector_t *vector, int index) {
 
     void *src = (unsigned char *)vector->data + (index + 1) * vector->objsize;
     void *dst = (unsigned char *)vector->data + index * vector->objsize;
-    int size = (vector->num - (index + 1)) * vector->objsize;
+    size_t size = (vector->num - (index + 1)) * vector->objsize;
     memmove(dst, src, size);
 
     return true;
